@@ -162,6 +162,8 @@ R(a, G)        == [a |-> a, G |-> G]
 SetDims(a, ds) == [a EXCEPT !.dims = ds]
 SetLen(a, i, n, idx) == [a EXCEPT !.dims[i].n = n, !.dims[i].idx = idx]
 ReplaceKind(a, k, h) == [a EXCEPT !.dims[GP(a)] = Dim(k, h, "none"), !.grid = h, !.name = "free"]
+\* descriptive: uxarray's operators that build their result from bare values carry no coordinates
+NoLabels(a) == [a EXCEPT !.dims = [i \in 1..Len(a.dims) |-> [a.dims[i] EXCEPT !.idx = "none"]]]
 Derived(G, kind, of, closed) == Append(G, [kind |-> kind, of |-> of, closed |-> closed])
 
 Eff(o, a, G) ==
@@ -189,19 +191,18 @@ Eff(o, a, G) ==
     [] n \in {"diff", "where_drop"} -> R(SetLen(a, i, D.n - 1, D.idx), G)
     [] n = "pad"      -> R(SetLen(a, i, D.n + 2, IF D.idx = "none" THEN "none" ELSE "dup"), G)
     [] n = "concat_self" -> R(SetLen(a, i, 2 * D.n, IF D.idx = "none" THEN "none" ELSE "dup"), G)
-    [] n = "coarsen"  -> R(SetLen(a, i, 1, IF D.idx = "none" THEN "none" ELSE "uniq"), G)
-    [] n = "isel_list_kw" -> R(SetLen(a, i, 1, IF D.idx = "none" THEN "none" ELSE "uniq"), G)
+    [] n \in {"coarsen", "isel_list_kw"} -> R(SetLen(a, i, 1, D.idx), G)
     [] n = "expand_dims_run" -> R(SetDims(a, <<Dim("run", 1, "none")>> \o a.dims), G)
     [] n \in {"concat_new_run", "broadcast_like_run"} -> R(SetDims(a, <<Dim("run", 2, "none")>> \o a.dims), G)
     [] n = "sum_all"  -> R(SetDims(a, <<>>), G)
-    [] n = "integrate" -> R([SetDims(a, RemoveAt(a.dims, GP(a))) EXCEPT !.name = "free"], G)
+    [] n = "integrate" -> R(NoLabels([SetDims(a, RemoveAt(a.dims, GP(a))) EXCEPT !.name = "free"]), G)
     [] n \in DropGridOps -> R(SetDims(a, RemoveAt(a.dims, GP(a))), G)
-    [] n \in {"topo_mean_face", "topo_max_face"} -> R(ReplaceKind(a, "n_face", a.grid), G)
-    [] n \in {"topo_mean_edge", "topo_min_edge"} \cup EdgeOps -> R(ReplaceKind(a, "n_edge", a.grid), G)
+    [] n \in {"topo_mean_face", "topo_max_face"} -> R(NoLabels(ReplaceKind(a, "n_face", a.grid)), G)
+    [] n \in {"topo_mean_edge", "topo_min_edge"} \cup EdgeOps -> R(NoLabels(ReplaceKind(a, "n_edge", a.grid)), G)
     [] n \in RemapOps -> R(ReplaceKind(a, RemapKind(n), DEST), G)
-    [] n \in DualOps  -> R([ReplaceKind(a, CASE Centred(a) = "n_face" -> "n_node"
+    [] n \in DualOps  -> R([NoLabels(ReplaceKind(a, CASE Centred(a) = "n_face" -> "n_node"
                                              [] Centred(a) = "n_node" -> "n_face"
-                                             [] OTHER -> "n_edge", h) EXCEPT !.name = "free"],
+                                             [] OTHER -> "n_edge", h)) EXCEPT !.name = "free"],
                            Derived(G, "dual", a.grid, TRUE))
     [] n \in SubsetOps \cup FreeOps
                       -> R([a EXCEPT !.grid = h, !.dims = Rebind(a.dims, h),
@@ -280,6 +281,7 @@ GridsGrow == [][ Len(grids') >= Len(grids) /\ SubSeq(grids', 1, Len(grids)) = gr
 Succ(a, G) == LET E == Enabled(a, G)
                   Rs == { Eff(o, a, G) : o \in E }
               IN { <<r, { <<o.op, o.d, IsFree(o, a)>> : o \in { x \in E : Eff(x, a, G) = r } }>> : r \in Rs }
-Emit == (EmitSucc /\ depth < MaxDepth) => PrintT(ToString(<<"X", depth, arr, grids, Succ(arr, grids)>>))
+Emit == /\ (EmitSucc /\ depth < MaxDepth) => PrintT(ToString(<<"X", depth, arr, grids, Succ(arr, grids)>>))
+        /\ (EmitSucc /\ depth = 0) => PrintT(ToString(<<"OPS", AllOps>>))
 GenView == <<arr, grids, depth>>
 =============================================================================
